@@ -253,6 +253,11 @@ C03_All(zz) ==
 \cup { L3("mov", <<G(64, n), Im(FALSE, m, "hex", dg)>>) : n \in {0, 12}, dg \in {13, 14, 15}, m \in {x \in ImmMags : x[5] = 0 /\ x[6] = 0 /\ x[7] = 0 /\ x[8] = 0} }
 \cup { L3("mov", <<G(64, n), Im(FALSE, m, "dec", dg)>>) : n \in {0, 12}, dg \in {17, 18, 19, 22}, m \in {x \in ImmMags : x[5] = 0 /\ x[6] = 0 /\ x[7] = 0 /\ x[8] = 0} }
 \cup { L3(mn, <<W(m, w, KW(w)), v>>) : mn \in Alu \cup {"test", "mov"}, w \in {8, 16, 32, 64}, m \in MemD, v \in ImmVals }
+\* ... and destinations whose address has no 64-bit base register (index only, absolute, 32-bit address registers)
+\cup { L3(mn, <<W(m, w, KW(w)), v>>) : mn \in {"mov", "add", "test"}, w \in {8, 16, 32, 64},
+         m \in { Mem("", 0, 64, -1, 1, 4, "si", NoD), Mem("", 0, 64, -1, 7, 1, "si", NoD), Mem("", 0, 64, -1, 1, 2, "si", NoD),
+                 Mem("", 0, 64, -1, -1, 0, "is", D(FALSE, <<0,16,0,0>>, "hex")), Mem("", 0, 32, 0, -1, 0, "is", NoD), Mem("", 0, 32, 9, -1, 0, "is", D(FALSE, <<4,0,0,0>>, "hex")) },
+         v \in {x \in ImmVals : x.radix = "hex" /\ (x.neg \/ x.mag[8] = 255 \/ x.mag \in {Small(5), Small(128)})} }
 \cup { L3("imul", <<G(w, 1), G(w, 9), v>>) : w \in {16, 32, 64}, v \in ImmVals }
 \cup { L3("imul", <<G(w, n), W(m, w, IF kwb THEN KW(w) ELSE ""), v>>) : w \in {16, 32, 64}, n \in {1, 9}, m \in {x \in MemD : x.b \in {1, 9}}, kwb \in BOOLEAN, v \in ImmVals }
 \cup { L3("push", <<v>>) : v \in ImmVals }
@@ -381,6 +386,7 @@ C05_TC(zz) == { Rec("C05", RelStatusTC(mn, kw, m), mn, <<RelIm(kw, FALSE, m, r)>
 C05_Mem(zz) == { Rec("C05", "Supported", mn, <<W(m, 64, "")>>) : mn \in {"jmp", "call"}, m \in {x \in ShapesB(64) : OKShape(x)} }
       \cup { Rec("C05", "Supported", mn, <<[W(m, 80, "") EXCEPT !.far = TRUE]>>) : mn \in {"jmp", "call"}, m \in {x \in ShapesR(64) : OKShape(x)} }
       \cup { Rec("C05", "Supported", mn, <<[W(m, 48, "dword") EXCEPT !.far = TRUE]>>) : mn \in {"jmp", "call"}, m \in {x \in ShapesR(64) : OKShape(x) /\ x.i = -1} }
+      \cup { Rec("C05", "Supported", mn, <<[W(m, 80, "qword") EXCEPT !.far = TRUE]>>) : mn \in {"jmp", "call"}, m \in {x \in ShapesR(64) : OKShape(x) /\ x.i \in {-1, 9}} }
       \cup { Rec("C05", "Supported", mn, <<G(64, n)>>) : mn \in {"jmp", "call"}, n \in 0..15 }
 
 (* ================================ C10 =================================== *)
@@ -395,7 +401,8 @@ C10_Kinds(lens, first) ==
 \* lexical malformations are token sequences ("<hh>" denotes the byte hh); all must be rejected
 Raw(cls, toks) == [prop |-> "C10", status |-> "Invalid", cls |-> cls, toks |-> toks]
 BadRegs == {"raxx", "eex", "rex", "r16", "r31", "r8q", "r8l", "r10x", "xmm16", "xmm99", "ymm16", "ymm32", "mm8", "mm9", "zmm0", "st0",
-            "ra", "rx", "eaxx", "axl", "sl", "bh1", "rsp1", "r15dd", "r15ww", "r15bb", "xmm", "ymm", "mm", "xmm1x", "k1", "cr0", "rip"}
+            "ra", "rx", "eaxx", "axl", "sl", "bh1", "rsp1", "r15dd", "r15ww", "r15bb", "xmm", "ymm", "mm", "xmm1x", "k1", "cr0", "rip",
+            "rbxy", "rspz", "r10y", "rbpz", "raxz", "rdiy", "ecxz", "r9dy", "rbxyz"}
 C10_Regs(zz) ==
      { Raw("misspelt-register", <<"add", " ", b, ",", " ", "rcx">>) : b \in BadRegs }
 \cup { Raw("misspelt-register", <<"add", " ", "rcx", ",", " ", b>>) : b \in BadRegs }
@@ -450,6 +457,11 @@ C10_Mem(zz) ==
 \cup { Raw("sp-scaled-index", u \o <<"[", sc, "*", sp, "+", "0x10", "]">> \o MemTail(u)) : u \in MemUsers, sp \in {"rsp"}, sc \in {"2", "4", "8"} }
 \cup { Raw("sp-base-and-index", u \o <<"[", sp, "+", sp, "]">> \o MemTail(u)) : u \in MemUsers, sp \in {"rsp", "esp"} }
 \cup { Raw("sp-base-and-index", u \o <<"[", "rsp", "+", "rsp", "+", "0x10", "]">> \o MemTail(u)) : u \in MemUsers }
+\cup { Raw("second-bracket-group", u \o <<"[", "rbx", "]", "[", "rcx", "]">> \o MemTail(u)) : u \in MemUsers }
+\cup { Raw("second-bracket-group", u \o <<"[", "0x10", "]", "[", "rbx", "]">> \o MemTail(u)) : u \in MemUsers }
+\cup { Raw("second-bracket-group", u \o <<"[", "rbx", "]", " ", "[", "rcx", "+", "0x10", "]">> \o MemTail(u)) : u \in MemUsers }
+\cup { Raw("second-bracket-group", <<"imul", " ", "rax", ",", " ", "word", " ", "[", "0x12345678", "]", "[", "8", "*", "eax", "]", ",", " ", "0x1122334455667788">>),
+       Raw("second-bracket-group", <<"mov", " ", "[", "rax", "]", "[", "rbx", "]", ",", " ", "rcx">>) }
 \cup { Raw("unclosed-bracket", u \o <<"[", "rax">> \o MemTail(u)) : u \in MemUsers }
 \cup { Raw("unclosed-bracket", u \o <<"[", "rax", "+", "rcx", "*", "4">> \o MemTail(u)) : u \in MemUsers }
 \cup { Raw("unclosed-bracket", u \o <<"[", "rax", "+", "0x10">> \o MemTail(u)) : u \in MemUsers }
@@ -507,7 +519,7 @@ StyleDims == [ case   : {"lower", "upper", "mixed"},
                indent : {"", "  ", "tab", "wide"},
                trail  : {"", " ", " ; comment", ";c", "tab; x", "wide", "wide; c", " ; was:tabsub rax, 0x10", " ; caf<c3><a9> ret", " ; <0c>ret"},   \* "wide": more blanks than a line may hold characters
                eol    : {"none", "lf", "crlf"},
-               zeros  : {"asis", "lead", "pad16"},       \* pad16: hexadecimal padded to 16 digits, decimal to 20
+               zeros  : {"asis", "lead", "pad16", "pad17", "pad24"},       \* pad16: hexadecimal padded to 16 digits, decimal to 20
                radix  : {"asis", "swap"} ]
 DefaultStyle == [case |-> "lower", sep |-> "space", comma |-> ", ", brack |-> "tight", indent |-> "", trail |-> "",
                  eol |-> "none", zeros |-> "asis", radix |-> "asis"]
